@@ -35,7 +35,7 @@ UNARY = ["inverse", "copy", "to_array", "to_compact", "position", "orientation",
 EDGE_QUERIES = ["edge_error", "edge_chi2", "edge_jacobians", "edge_cgh", "edge_numeric_jacobians", "edge_to_g2o",
                 "edge_equals_self", "edge_equals_clone", "buffer_error", "buffer_jacobians", "buffer_cgh"]
 VERTEX_QUERIES = ["vertex_to_g2o", "vertex_equals_self", "vertex_equals_other"]
-GRAPH_QUERIES = ["graph_chi2", "graph_equals_clone", "graph_equals_perturbed", "graph_export", "graph_export", "params_to_g2o"]
+GRAPH_QUERIES = ["graph_chi2", "graph_equals_clone", "graph_equals_perturbed", "graph_export", "graph_export", "params_to_g2o", "graph_deepcopy", "graph_pickle"]
 POSE_QUERIES = ["pose_unary", "pose_binary", "pose_jac_unary", "pose_jac_binary", "pose_jac_point", "pose_boxplus",
                 "pose_alias_iadd", "pose_copy_independent", "pose_views_independent", "pose_equals"]
 
@@ -352,6 +352,17 @@ class C15(OptEngineBase):
         if q == "graph_export":
             g.to_g2o(op["path"])
             return "exported"
+        if q in ("graph_deepcopy", "graph_pickle"):
+            import pickle
+
+            h = copy.deepcopy(g) if q == "graph_deepcopy" else pickle.loads(pickle.dumps(g))
+            same = snapshot(h) == snapshot(g)
+            # the copy is independent: optimizing it must not touch the original (checked by the snapshot after the query)
+            try:
+                h.optimize(max_iter=1, verbose=False, fix_first_pose=False)
+            except Exception:  # noqa -- singular copies etc. are not this query's business
+                pass
+            return [bool(same), float(g.calc_chi2()) if g._edges else 0.0]
         if q == "params_to_g2o":
             return [par.to_g2o() for par in (getattr(g, "_g2o_params", None) or {}).values()]
         a = locate(g, op["a"])
@@ -515,6 +526,8 @@ class C15(OptEngineBase):
                     bad = "copy() shares memory with the original"
                 if op["q"] == "pose_views_independent" and not isinstance(vals[0], BaseException) and any(vals[0]):
                     bad = "to_array/to_compact/position/orientation returned a view of the pose: %r" % (vals[0],)
+                if op["q"] in ("graph_deepcopy", "graph_pickle") and not isinstance(vals[0], BaseException) and vals[0][0] is not True:
+                    bad = "copy.deepcopy / pickle round trip of the graph does not reproduce its state bit for bit"
                 if op["q"].startswith("buffer_") and not isinstance(vals[0], BaseException):
                     if canon_value(vals[0][0]) != canon_value(vals[0][1]):
                         bad = "value returned after scribbling over the previously returned buffer differs (a cached/shared buffer was handed out)"
